@@ -254,9 +254,7 @@ package state
 // nor a write set; with requests, acceptance requires the re-executed write set to
 // equal the declared one (details: C09).
 //@ ghost var lastEqualOK bool
-//@ func github.com/xuperchain/xupercore/bcs/ledger/xledger/state/xmodel.Equal
-//@   noverify
-//@   sets lastEqualOK = result
+// (xmodel.Equal records its verdict in lastEqualOK: contract in the xmodel package.)
 //@ func State.verifyTxRWSets
 //@   property C07 C09
 //@   sets passed = passInc(passed, tx, 6, result0)
@@ -265,6 +263,30 @@ package state
 //@   ensures counters_monotone: (forall x int, k int :: sel(sel(passed, x), k) >= sel(sel(old(passed), x), k))
 //@   ensures no_code_no_rwset: result0 && tx != nil && !t.VerifyReservedWhitelist(tx) && old(tx.ContractRequests) == nil ==> old(tx.TxInputsExt) == nil && old(tx.TxOutputsExt) == nil
 //@   ensures reexecuted_writes_equal_declared: result0 && tx != nil && !t.VerifyReservedWhitelist(tx) && old(tx.ContractRequests) != nil ==> lastEqualOK
+// C09: the re-execution reads ONLY the declared read set, runs the declared requests
+// in order with their declared arguments and limits, is charged at the chain's gas
+// price against the fee the transaction pays, and its write set - taken after the
+// sandbox was flushed - is what the declared write set is compared with.
+//@   local rset []*ledger.VersionedData
+//@   local wset []*ledger.PureData
+//@   local reader ledger.XMReader
+//@   local sandBoxConfig *contract.SandboxConfig
+//@   local contextConfig *contract.ContextConfig
+//@   local tmpReq *protos.InvokeRequest
+//@   local gasLimit int64
+//@   local RWSet *contract.RWSet
+//@   at sandbox.XMReaderFromRWSet assert [C09] reader_holds_the_declared_sets: $0.RSet == rset && $0.WSet == wset
+//@   at Manager.NewStateSandbox assert [C09] reexecution_reads_only_the_declared_reads: $0 == sandBoxConfig && sandBoxConfig.XMReader == reader
+//@   at Manager.NewContext assert [C09] declared_request_under_its_declared_limits: $0 == contextConfig && contextConfig.ContractName == (tmpReq == nil ? "" : tmpReq.ContractName) && contextConfig.Module == (tmpReq == nil ? "" : tmpReq.ModuleName) && gasLimit >= 0
+//@   at Context.Invoke assert [C09] with_its_declared_method_and_arguments: tmpReq != nil ==> $0 == tmpReq.MethodName && $1 == tmpReq.Args
+//@   local gasPrice *protos.GasPrice
+//@   at Limits.TotalGas assert [C09] charged_at_the_chain_price: $0 == gasPrice
+//@   at StateSandbox.RWSet assert [C09] write_set_taken_after_the_flush: err == nil && sel(flushed, recv)
+//@   at xmodel.Equal assert [C09] declared_writes_against_reexecuted_writes: $0 == wset && $1 == RWSet.WSet
+// (That the budget left is the fee minus the gas of the requests run so far is not
+// proved: the sum is a recursive function of heap state that running a contract may,
+// as far as the memory model knows, rewrite. What is asserted is that a request is only
+// started with a non-negative budget and charged at the chain's price.)
 
 // ---- callers: nothing is applied unverified ----
 //@ func State.verifyMarked
